@@ -575,7 +575,15 @@ def invariant_loop(interp, node, st, man, lo, hi):
         else:
             raise Unsupported("return inside a loop with invariant")
     if exits:
-        raise Unsupported("break inside a loop with invariant")
+        # `break`: the loop is left from an arbitrary iteration (havoc + invariant + body up to the break), the
+        # `else` block is skipped.  One continuation per break path, chosen by a nondeterministic (fresh) decision.
+        if interp.explorer is None:
+            raise Unsupported("break inside a loop with invariant outside exploration")
+        for snap in exits:
+            st.restore(pre)
+            if interp.explorer.decide(T.Fresh.bool("loop_exit")):
+                st.restore(snap)
+                return
     # ---- exit
     st.restore(pre)
     havoc(st)
